@@ -35,6 +35,22 @@ VEC = 'alloc::vec::Vec::<T, A>::'
 VEC2 = 'alloc::vec::Vec::<T>::'
 
 
+def lookup_fns(F):
+    """Connection lookups: free functions of the manager's module that take the connection table (a slice of
+    connections) and return something that carries a connection."""
+    out = []
+    for b in F.bodies.values():
+        if not F.handwritten(b) or b['kind'] != 'Fn' or 'connectionmanager' not in b['id']:
+            continue
+        sig = b.get('sig', '')
+        if '->' not in sig:
+            continue
+        params, ret = sig.rsplit('->', 1)
+        if '[device::socket::connectionmanager::Connection]' in params and 'Connection' in ret:
+            out.append(b)
+    return out
+
+
 def canon_path(F, t, side, S=None, captured=None, fn=None):
     """(base, [field names]) of the object a term denotes; references and dereferences are transparent.
     side 'closure': param1 = captured environment, param2 = the iterated item; side 'parent': params named by type."""
@@ -108,8 +124,7 @@ def canon_path(F, t, side, S=None, captured=None, fn=None):
 
 
 def x5_predicates(F, R):
-    cands = [b for b in F.bodies.values() if F.handwritten(b) and b['kind'] == 'Fn' and 'connectionmanager' in b['id']
-             and 'Connection' in b.get('sig', '') and 'usize' in b.get('sig', '')]
+    cands = lookup_fns(F)
     nfold = 0
     for b in cands:
         sg = supergraph(F, b['id'])
@@ -253,8 +268,7 @@ def run(F, R):
         raise Undecided('cannot identify connection table / listening set fields: %s' % fields)
     table, listen = table[0], listen[0]
     x6_listen(F, R, listen)
-    lookups = [b['id'] for b in F.bodies.values() if F.handwritten(b) and b['kind'] == 'Fn' and 'connectionmanager' in b['id'] and 'Connection' in b.get('sig', '')
-               and ('usize' in b.get('sig', ''))]
+    lookups = [b['id'] for b in lookup_fns(F)]
     if not lookups:
         raise Undecided('connection lookup helpers not found')
     sock_ops = {b['id']: b['name'] for b in F.bodies.values() if b.get('impl_adt') == 'device::socket::vsock::VirtIOSocket' and b['kind'] == 'AssocFn' and b.get('pub')}
